@@ -20,4 +20,5 @@ Extraction "model.ml"
   indent dedent
   wrap_columns custom3
   pipeline_words line_widths body lastw_pen
+  trim split_terminator_lf
   wf_strip greedy_b take_ws has_nonws is_prefix_char split_terminator_lf trim_end ends_with join spaces.
